@@ -39,6 +39,10 @@ def gen_script(rng, max_gates=24, max_in=6, max_ff=3, p_glitchy=0.2, style=None,
     n_sig = n_in + n_fl + 2 * n_ff
     unread = list(range(n_in)) + list(range(n_in + n_fl, n_sig))
     recent_bias = rng.choice([0.3, 0.6, 0.9])
+    shape = rng.random()
+    chain = shape < 0.01                 # a deep chain: every gate reads the previous one (many levels)
+    wide = 0.01 <= shape < 0.02          # one very wide level: every gate reads only inputs (fan-out and level width >> 32)
+    if chain or wide: n_g = rng.choice([50, 80])
     layered = rng.random() < 0.35        # wide levels: gates of a layer read only signals of earlier layers
     layer_end = n_sig                    # signals [0, layer_end) belong to earlier layers
     layer_left = rng.randint(2, 7)
@@ -50,7 +54,11 @@ def gen_script(rng, max_gates=24, max_in=6, max_ff=3, p_glitchy=0.2, style=None,
         n = FIXED[kind] if kind in FIXED else rng.randint(2, 4)
         srcs = []
         for _ in range(n):
-            if layered:
+            if chain:
+                s = n_sig - 1 if rng.random() < 0.8 else rng.randrange(n_sig)
+            elif wide:
+                s = rng.randrange(n_in)
+            elif layered:
                 cand = [u for u in unread if u < layer_end]
                 s = rng.choice(cand) if cand and rng.random() < 0.6 else rng.randrange(layer_end)
             elif unread and rng.random() < 0.5:
